@@ -121,12 +121,53 @@ func TestC07_EncoderConforms(t *testing.T) {
 				t.Fatalf("C07/C: decoded mapping differs")
 			}
 		}
+		checkVanishedEncoding(t, cl, "C07/A", sc, src.s, omit)
 		nb := len(src.k.expectPos(sc))
 		if n := len(src.k.expectNeg(sc)); n > nb {
 			nb = n
 		}
 		cl.done(nb >= 2)
 	})
+}
+
+
+// checkVanishedEncoding: a copy of the sketch is reweighted until every weight has underflowed to exactly 0 (its
+// stores may keep entries, pages or array slots of weight 0); its encoding must still be a well-formed stream that
+// every decoder accepts and that carries no weight.
+func checkVanishedEncoding(t *rapid.T, cl *caseLog, prop string, sc skCfg, s obs.SK, omit bool) {
+	v := s.Copy()
+	for i := 0; i < 3; i++ {
+		if err := v.Reweight(0x1p-600); err != nil {
+			t.Fatalf("%s %s: Reweight(2^-600) refused: %v", prop, sc, err)
+		}
+	}
+	var b []byte
+	v.Encode(&b, omit)
+	content, blocks, err := refdec.Parse(b)
+	if err != nil {
+		t.Fatalf("%s %s: after every weight underflowed to 0 the encoding is not a sequence of documented blocks: %v (stream % x)", prop, sc, err, b)
+	}
+	if len(blocks) > 0 && blocks[len(blocks)-1].End != len(b) {
+		t.Fatalf("%s %s: (weights underflowed to 0) trailing bytes after the last block", prop, sc)
+	}
+	for _, neg := range []bool{false, true} {
+		for i, c := range content.Bins(neg) {
+			if c != 0 {
+				t.Fatalf("%s %s: (weights underflowed to 0) the encoding carries weight %v at index %d", prop, sc, c, i)
+			}
+		}
+	}
+	for _, tk := range []gen.StoreKind{{Name: "dense"}, {Name: "sparse"}, {Name: "paginated"}, {Name: "collow", N: 8}, {Name: "colhigh", N: 8}} {
+		tc := skCfg{spec: sc.spec, m: sc.m, pos: tk, neg: tk}
+		dec, err := ddsketch.DecodeDDSketch(b, tc.provider(), sc.m)
+		if err != nil {
+			t.Fatalf("%s %s: (weights underflowed to 0) DecodeDDSketch into %s refused the sketch's own encoding: %v (stream % x)", prop, sc, tk, err, b)
+		}
+		if dec.GetCount() != 0 {
+			t.Fatalf("%s %s: (weights underflowed to 0) decoded into %s: count %v", prop, sc, tk, dec.GetCount())
+		}
+	}
+	cl.label("encoding-after-weights-underflowed-to-zero")
 }
 
 // ---------------------------------------------------------------- direction B: grammar-generated streams
